@@ -424,6 +424,8 @@ def check_basic(ctx, F, by_name, tag):
             second, guard = padding_form(pad, fs, LEN, env)
             second = second and core(wa[1]["args"][0])[:2] == ("param", 1)
             okb = first and second and guard
+            if first and not second:
+                okb = None      # the padding length is computed by a formula this rule does not read (`8 - len % 8`, ..): not refuted
             detail = "body = bytes then zero padding of round_up_to_word_bytes(len) - len bytes when > 0%s: first=%s padding=%s guard=%s" % (
                 (" (padding written by helper %s)" % wa[1]["via"]) if wa[1]["via"] else "", first, second, guard)
         ctx.ob("C06.R2.basic.bytes-body", short + tag, where, okb, "formula", detail)
@@ -453,9 +455,12 @@ def check_basic(ctx, F, by_name, tag):
             skip, skip_facts = resolve_nonzero_vars(lb, re[1][0], lb.term_of_operand(re[1][1]["args"][1]))
             fs = facts_at(lb, re[1][0]) + skip_facts
             second, guard = padding_form(skip, fs, vlen, env, mutable=True)
+            unread = first and not second
             oks = [st for bi, si, st in lb.stmts() if st["s"] == "assign" and st["lhs"]["l"] == 0 and st["rv"]["r"] == "agg" and st["rv"].get("vname") == "Ok"]
             ret = len(oks) == 1 and m(Call("std::vec::from_elem", Const(0), Bind("size")), lb.term_of_operand(oks[0]["rv"]["ops"][0]), env)
             okl = first and second and guard and ret
+            if unread and ret:
+                okl = None
             detail = "load = read size bytes into vec![0; size], then skip round_up(len) - len padding bytes when > 0: first=%s padding=%s guard=%s returns-vector=%s" % (first, second, guard, ret)
     ctx.ob("C06.R2.basic.bytes-load", "Vec<u8>" + tag, where, okl, "formula", detail)
     # String::load = Vec<u8>::load then from_utf8
